@@ -359,6 +359,8 @@ def rtw_client_failures():
 
 
 def extra_checks(rep, tier):
+    from contracts import grid_http
+    grid_http.grid_check(rep, tier, "C31")
     bad, n = rtw_client_failures()
     name = "ReadTestWriteClient:the-message-carries-exactly-the-callers-vectors-and-new-length"
     rep.obligations += 1
